@@ -31,25 +31,44 @@ PageAt(g, c, pos) ==
         hit == {i \in 1..Len(ps) : pos >= ps[i].first /\ pos < ps[i].first + ps[i].len}
     IN IF hit = {} THEN 0 ELSE CHOOSE i \in hit : TRUE
 
-ChunkRows(g, c) == Len(ChunkDefs(fileMap.f.rgs[g].cols[c]))
+\* expected content of chunk (g, c): from the reference reader when it can decode the codec;
+\* for layout-only fixtures (GZIP, ZSTD bodies are opaque to the specification) the content
+\* recorded from the read of the undamaged file (its agreement with the history is C01's business)
+Content(ev, f) ==
+    IF ev.layout
+    THEN [g \in 1..Len(f.rgs) |-> [c \in 1..Len(f.rgs[g].cols) |->
+            LET hit == {k \in 1..Len(ev.content) : ev.content[k].g = g - 1 /\ ev.content[k].c = c - 1}
+            IN IF hit = {} THEN [defs |-> <<>>, vals |-> <<>>]
+               ELSE LET k == CHOOSE k \in hit : TRUE IN [defs |-> ev.content[k].defs, vals |-> ev.content[k].vals]]]
+    ELSE [g \in 1..Len(f.rgs) |-> [c \in 1..Len(f.rgs[g].cols) |->
+            [defs |-> ChunkDefs(f.rgs[g].cols[c]), vals |-> ChunkVals(f.rgs[g].cols[c])]]]
+ParseEv(ev) == IF ev.layout THEN ParseLayout(ev.bytes) ELSE ParseFile(ev.bytes)
+AllPages(f) == Flatten([g \in 1..Len(f.rgs) |-> Flatten([c \in 1..Len(f.rgs[g].cols) |-> f.rgs[g].cols[c].pages])])
+ChunkRows(g, c) == Len(fileMap.content[g][c].defs)
 
 \* a damaged read of chunk (g, c): Ev.delivered rows in total, Ev.error (some call failed),
 \* Ev.defs / Ev.vals the delivered content, Ev.verify
 Verdict ==
-    CASE Ev.e = "File" -> IF ParseFile(Ev.bytes).ok THEN {} ELSE {"fixture-not-parsable"}
+    CASE Ev.e = "File" -> LET f == ParseEv(Ev) IN
+                          IF ~f.ok THEN {"fixture-not-parsable"}
+                          \* every page of a file written by carquet carries a (correct) checksum: without one
+                          \* no damage to that page can be detected
+                          ELSE {k \in {"damage:page-without-crc", "damage:crc-wrong-on-undamaged-file"} :
+                                   \/ (k = "damage:page-without-crc" /\ \E i \in 1..Len(AllPages(f)) : ~AllPages(f)[i].hasCrc)
+                                   \/ (k = "damage:crc-wrong-on-undamaged-file" /\ \E i \in 1..Len(AllPages(f)) : ~AllPages(f)[i].crcOk)}
       [] Ev.e = "Read" ->
             LET g == Ev.g + 1
                 c == Ev.c + 1
                 p == IF Ev.pos < 0 THEN 0 ELSE PageAt(g, c, Ev.pos)
-                ch == fileMap.f.rgs[g].cols[c]
+                ch == fileMap.content[g][c]
                 total == ChunkRows(g, c)
                 allowed == IF p = 0 THEN total
                            ELSE IF fileMap.pages[g][c][p].kind = "dict" THEN 0
                            ELSE fileMap.pages[g][c][p].rowsBefore
                 prefixOk == /\ Ev.delivered <= total
-                            /\ Ev.defs = SubSeq(ChunkDefs(ch), 1, Ev.delivered)
-                            /\ Ev.vals = SubSeq(ChunkVals(ch), 1, Len(Ev.vals))
-                            /\ Len(Ev.vals) = CountEq(SubSeq(ChunkDefs(ch), 1, Ev.delivered), fileMap.f.leaves[c].maxDef)
+                            /\ Ev.defs = SubSeq(ch.defs, 1, Ev.delivered)
+                            /\ Ev.vals = SubSeq(ch.vals, 1, Len(Ev.vals))
+                            /\ Len(Ev.vals) = CountEq(SubSeq(ch.defs, 1, Ev.delivered), fileMap.maxDef[c])
             IN IF Ev.fault # "" THEN {"damage:fault:" \o Ev.fault}
                ELSE IF ~Ev.verify THEN {}                                     \* only memory safety is promised
                ELSE IF p = 0 THEN                                              \* damage elsewhere or none: this chunk is intact
@@ -70,7 +89,8 @@ TSkip == l <= Len(Tr) /\ Ev.e # "Reset" /\ skip /\ l' = l + 1 /\ UNCHANGED <<ski
 TStep == /\ l <= Len(Tr) /\ Ev.e # "Reset" /\ ~skip /\ l' = l + 1
          /\ LET v == Verdict
             IN IF v = {} THEN /\ UNCHANGED <<skip, bad>>
-                              /\ fileMap' = IF Ev.e = "File" THEN LET f == ParseFile(Ev.bytes) IN [f |-> f, pages |-> PageMap(f)] ELSE fileMap
+                              /\ fileMap' = IF Ev.e = "File" THEN LET f == ParseEv(Ev) IN [pages |-> PageMap(f), content |-> Content(Ev, f),
+                                                                                  maxDef |-> [c \in 1..Len(f.leaves) |-> f.leaves[c].maxDef]] ELSE fileMap
                               /\ stats' = [stats EXCEPT !.events = @ + 1,
                                                         !.detected = IF Ev.e = "Read" /\ Ev.error THEN @ + 1 ELSE @]
                ELSE /\ bad' = Append(bad, [l |-> l, id |-> Ev.id, e |-> Ev.e, why |-> v, detail |-> ""])
